@@ -1186,6 +1186,32 @@ func c18Worker(c *ctx) error {
 	return nil
 }
 
+// buildWide creates /x/y/f for x, y in the four names (some y left out), every file written.
+func (w *c18W) buildWide() {
+	root := uint64(fuseops.RootInodeID)
+	for _, x := range c18Names {
+		w.opCreate(root, x, true)
+		dx, ok := w.links[c18Key{root, x}]
+		if !ok {
+			continue
+		}
+		for j, y := range c18Names {
+			if j >= 2+w.rng.Intn(3) {
+				break
+			}
+			w.opCreate(dx, y, true)
+			dy, ok := w.links[c18Key{dx, y}]
+			if !ok {
+				continue
+			}
+			w.opCreate(dy, "a", false)
+			if f, ok := w.links[c18Key{dy, "a"}]; ok {
+				w.opWrite(f, 0, uint64(1+w.rng.Intn(50)), 1+w.rng.Intn(40))
+			}
+		}
+	}
+}
+
 // c18Program generates and runs program number n (a function of the seed and n only).
 func c18Program(c *ctx, out *bufio.Writer, n int) error {
 	work := os.Getenv("VERIF_WORK")
@@ -1212,6 +1238,11 @@ func c18Program(c *ctx, out *bufio.Writer, n int) error {
 	}
 	nops := 5 + w.rng.Intn(maxOps-4)
 	fmt.Fprintf(w.out, "C prog id=%d ops=%d\n", n, nops)
+	if n%15 == 1 {
+		// a wide and nested tree first: four directories under the root, each with sub-directories that
+		// hold files (the commit uploads directories concurrently, four at a time)
+		w.buildWide()
+	}
 	for i := 0; i < nops; i++ {
 		w.stepOnce()
 	}
